@@ -7,3 +7,9 @@ import LyModel.Props.C10
 #print axioms LyModel.Props.C10.stmt_tree_roundtrip
 #print axioms LyModel.Props.C10.stmt_tree_roundtrip_input_fuel
 #print axioms LyModel.Props.C10.stmt_roundtrip
+-- audit resolution: `KwOk` / exact column for every keyword of the generated trie, and `ypr_text` with its keyword
+#print axioms LyModel.Props.C10.kwAt_of_yangKwTrie
+#print axioms LyModel.Props.C10.kwOk_of_yangKwTrie
+#print axioms LyModel.Props.C10.kwBareOk_input_output
+#print axioms LyModel.Props.C10.yang_text_roundtrip_keyword
+#print axioms LyModel.Props.C10.kwTree_wf
